@@ -179,55 +179,65 @@ func runC17(res *Result, tier string, seed int64, replay string) {
 		headTags := []string{"mj-title", "mj-preview", "mj-style", "mj-font", "mj-head", "mj-attributes", "mj-html-attributes"}
 		headContent := map[string]string{"mj-title": "T", "mj-preview": "P", "mj-style": ".a{color:red}", "mj-attributes": `<mj-text color="red"/>`,
 			"mj-html-attributes": `<mj-selector path=".x"><mj-html-attribute name="data-id">1</mj-html-attribute></mj-selector>`}
-		needed := map[string]string{"mj-font": ` name="F" href="https://f.example/f.css"`}
+		// the attributes the element is useful with — all of them, some of them, none, present but empty: whether the element
+		// "contributes anything" must not decide whether its attributes are validated
+		neededVariants := map[string][]string{"mj-font": {` name="F" href="https://f.example/f.css"`, ` name="F"`, ` href="https://f.example/f.css"`, ``, ` name="" href=""`, ` name="F" href=""`},
+			"mj-style": {``, ` inline="inline"`}}
 		for _, t := range headTags {
-			for _, a := range []string{"bogus", "media", "inlne", "inline", "name", "href", "width", "data-x", "css-class"} {
-				if strings.Contains(needed[t], " "+a+"=") {
-					continue
-				}
-				shapes := []string{"self-closing", "empty", "blank", "blank-lines"}
-				if headContent[t] != "" {
-					shapes = append(shapes, "content", "comment-only")
-				}
-				for _, sh := range shapes {
-					at := needed[t] + " " + a + `="v"`
-					var el string
-					switch sh {
-					case "self-closing":
-						el = "<" + t + at + "/>"
-					case "empty":
-						el = "<" + t + at + "></" + t + ">"
-					case "blank":
-						el = "<" + t + at + "> \t </" + t + ">"
-					case "blank-lines":
-						el = "<" + t + at + ">\n\n  </" + t + ">"
-					case "content":
-						el = "<" + t + at + ">" + headContent[t] + "</" + t + ">"
-					case "comment-only":
-						el = "<" + t + at + "><!-- c --></" + t + ">"
+			vars := neededVariants[t]
+			if vars == nil {
+				vars = []string{""}
+			}
+			for vi, neededT := range vars {
+				needed := map[string]string{t: neededT}
+				for _, a := range []string{"bogus", "media", "inlne", "inline", "name", "href", "width", "data-x", "css-class", "family", "src"} {
+					if strings.Contains(needed[t], " "+a+"=") {
+						continue
 					}
-					src := "<mjml><mj-head>" + el + "</mj-head><mj-body><mj-section><mj-column><mj-text>T</mj-text></mj-column></mj-section></mj-body></mjml>"
-					if t == "mj-head" {
-						src = "<mjml><mj-head" + at + ">" + map[string]string{"self-closing": "", "empty": "", "blank": " ", "blank-lines": "\n\n", "content": "", "comment-only": ""}[sh] + "</mj-head><mj-body><mj-section><mj-column><mj-text>T</mj-text></mj-column></mj-section></mj-body></mjml>"
+					shapes := []string{"self-closing", "empty", "blank", "blank-lines"}
+					if headContent[t] != "" {
+						shapes = append(shapes, "content", "comment-only")
 					}
-					_, err := renderPlain(src)
-					ds, isVal := detailsOf(err)
-					want := !specAccepted(t, a)
-					res.Case("head/"+t+"/"+a+"/"+sh, want)
-					res.Count("head-shape=" + sh)
-					sig, what := "", ""
-					switch {
-					case err != nil && !isVal:
-						continue // not a document the property speaks about
-					case want && len(ds) == 0:
-						sig, what = "invalid-attribute-not-reported", "the head element does not accept this attribute, no error was returned (element written "+sh+")"
-					case !want && len(ds) > 0:
-						sig, what = "accepted-attribute-reported", fmt.Sprintf("reported %v although the element accepts it", ds)
-					case want && (len(ds) != 1 || ds[0].tag != t || ds[0].attr != a):
-						sig, what = "details-not-exact", fmt.Sprintf("details %v, want exactly one (%s, %s)", ds, t, a)
-					}
-					if sig != "" {
-						res.Violate(Violation{Sig: sig + "|head/" + t + "/" + a + "/" + sh, Kind: "cell", What: what, Input: map[string]string{"source": src}})
+					for _, sh := range shapes {
+						at := needed[t] + " " + a + `="v"`
+						var el string
+						switch sh {
+						case "self-closing":
+							el = "<" + t + at + "/>"
+						case "empty":
+							el = "<" + t + at + "></" + t + ">"
+						case "blank":
+							el = "<" + t + at + "> \t </" + t + ">"
+						case "blank-lines":
+							el = "<" + t + at + ">\n\n  </" + t + ">"
+						case "content":
+							el = "<" + t + at + ">" + headContent[t] + "</" + t + ">"
+						case "comment-only":
+							el = "<" + t + at + "><!-- c --></" + t + ">"
+						}
+						src := "<mjml><mj-head>" + el + "</mj-head><mj-body><mj-section><mj-column><mj-text>T</mj-text></mj-column></mj-section></mj-body></mjml>"
+						if t == "mj-head" {
+							src = "<mjml><mj-head" + at + ">" + map[string]string{"self-closing": "", "empty": "", "blank": " ", "blank-lines": "\n\n", "content": "", "comment-only": ""}[sh] + "</mj-head><mj-body><mj-section><mj-column><mj-text>T</mj-text></mj-column></mj-section></mj-body></mjml>"
+						}
+						_, err := renderPlain(src)
+						ds, isVal := detailsOf(err)
+						want := !specAccepted(t, a)
+						res.Case(fmt.Sprintf("head/%s/%s/%s/%d", t, a, sh, vi), want)
+						res.Count("head-shape=" + sh)
+						sig, what := "", ""
+						switch {
+						case err != nil && !isVal:
+							continue // not a document the property speaks about
+						case want && len(ds) == 0:
+							sig, what = "invalid-attribute-not-reported", "the head element does not accept this attribute, no error was returned (element written "+sh+")"
+						case !want && len(ds) > 0:
+							sig, what = "accepted-attribute-reported", fmt.Sprintf("reported %v although the element accepts it", ds)
+						case want && (len(ds) != 1 || ds[0].tag != t || ds[0].attr != a):
+							sig, what = "details-not-exact", fmt.Sprintf("details %v, want exactly one (%s, %s)", ds, t, a)
+						}
+						if sig != "" {
+							res.Violate(Violation{Sig: fmt.Sprintf("%s|head/%s/%s/%s/%d", sig, t, a, sh, vi), Kind: "cell", What: what, Input: map[string]string{"source": src}})
+						}
 					}
 				}
 			}
